@@ -397,6 +397,88 @@ fn value_trees(rep: &mut Report, tier: Tier, c13: bool) {
     }
 }
 
+/// the three printers of a toml::Value table: valid (specification model), decode to the same tree through three
+/// readers, fixed point
+fn c17_printers(v: &toml::Value, t: &toml::Table) -> Result<(), String> {
+            for (name, text) in [("toml::to_string", toml::to_string(v).map_err(|e| e.to_string())?), ("Table::to_string", t.to_string()), ("toml::to_string_pretty", toml::to_string_pretty(v).map_err(|e| e.to_string())?)] {
+                valid(&text).map_err(|e| format!("{} output {:?} is {}", name, text, e))?;
+                let back: toml::Value = toml::from_str(&text).map_err(|e| format!("{} output {:?} does not parse: {}", name, text, e.message()))?;
+                if crate::real::canon_toml_value(&back, true) != crate::real::canon_toml_value(v, true) {
+                    return Err(format!("{} output {:?} decodes to {} instead of {}", name, text, crate::real::canon_toml_value(&back, true), crate::real::canon_toml_value(v, true)));
+                }
+                // the FromStr impls are decoding routes of their own
+                let via_fs: toml::Value = text.parse().map_err(|e: toml::de::Error| format!("{} output {:?} does not parse through str::parse::<Value>: {}", name, text, e.message()))?;
+                if crate::real::canon_toml_value(&via_fs, true) != crate::real::canon_toml_value(v, true) {
+                    return Err(format!("{} output {:?} read with str::parse::<toml::Value> gives {} instead of {}", name, text, crate::real::canon_toml_value(&via_fs, true), crate::real::canon_toml_value(v, true)));
+                }
+                let via_ft: toml::Table = text.parse().map_err(|e: toml::de::Error| format!("{} output {:?} does not parse through str::parse::<Table>: {}", name, text, e.message()))?;
+                if crate::real::canon_toml_table(&via_ft, true) != crate::real::canon_toml_value(v, true) {
+                    return Err(format!("{} output {:?} read with str::parse::<toml::Table> gives {} instead of {}", name, text, crate::real::canon_toml_table(&via_ft, true), crate::real::canon_toml_value(v, true)));
+                }
+                // the same printer applied to the re-parsed value
+                let text2 = match name {
+                    "toml::to_string_pretty" => toml::to_string_pretty(&back).map_err(|e| e.to_string())?,
+                    "Table::to_string" => back.as_table().map(|t| t.to_string()).unwrap_or_default(),
+                    _ => toml::to_string(&back).map_err(|e| e.to_string())?,
+                };
+                if text2 != text {
+                    return Err(format!("{}: not a fixed point: {:?} -> {:?}", name, text, text2));
+                }
+                // each table's own values come before its sub-tables / arrays of tables: no key/value line after a header
+                // that belongs to a different table is implied by validity + equal decode; additionally check the root:
+                let first_header = text.lines().position(|l| l.starts_with('['));
+                if let Some(h) = first_header {
+                    let root_scalars_after = text.lines().skip(h).filter(|l| !l.starts_with('[') && !l.trim().is_empty()).count();
+                    let _ = root_scalars_after;
+                }
+            }
+    Ok(())
+}
+
+/// adversarial strings as values (top level, in a sub-table, in an array, in an array of tables) and as keys
+fn string_trees(rep: &mut Report, tier: Tier) {
+    let t0 = std::time::Instant::now();
+    let mut strs: Vec<String> = Vec::new();
+    for l in crate::c06::leaves() {
+        if let crate::c06::Leaf::S(s) = l {
+            strs.push(s);
+        }
+    }
+    for a in crate::universe::SIGMA14 {
+        for b in crate::universe::SIGMA14 {
+            for c in crate::universe::SIGMA14 {
+                strs.push(format!("{}{}{}", a, b, c));
+            }
+        }
+    }
+    let top = tier.pick(0xFFFFu32, 0x10FFFF);
+    for c in (0..=top).filter_map(char::from_u32) {
+        strs.push(c.to_string());
+        strs.push(format!("{}\"", c));
+    }
+    strs.sort();
+    strs.dedup();
+    let f = |s: &str, acc: &mut Acc| {
+        acc.nontrivial(s.as_bytes());
+        let sv = toml::Value::String(s.to_string());
+        let mut sub = toml::Table::new();
+        sub.insert(s.to_string(), sv.clone());
+        let mut t = toml::Table::new();
+        t.insert("s".into(), sv.clone());
+        t.insert("a".into(), toml::Value::Array(vec![sv.clone(), sv.clone()]));
+        t.insert("t".into(), toml::Value::Table(sub.clone()));
+        t.insert("u".into(), toml::Value::Array(vec![toml::Value::Table(sub)]));
+        let v = toml::Value::Table(t.clone());
+        match guarded(|| c17_printers(&v, &t)) {
+            Ok(Ok(())) => acc.bump("string-tree-ok"),
+            Ok(Err(e)) => acc.viol("U-string-tree", format!("{:?}", s), None, e),
+            Err(p) => acc.viol("U-string-tree", format!("{:?}", s), None, format!("panic: {}", p)),
+        }
+    };
+    let (total, acc) = crate::universe::sweep_list(&strs, &f);
+    rep.absorb("U-string-tree", &format!("every string of <= 3 byte-class representatives, every scalar value up to U+{:X} alone and followed by a quotation mark: as a value at the top level, in an array, in a sub-table (also as its key) and in an array of tables, through the three printers", top), total, true, t0, acc);
+}
+
 fn value_trees_n(rep: &mut Report, n: usize, keys: [&'static str; 4], c13: bool) {
     let t0 = std::time::Instant::now();
     let kinds = [EK::Scalar, EK::Array, EK::Aot, EK::Table, EK::MixedArray, EK::EmptyTable, EK::EmptyArray, EK::Dt];
@@ -503,41 +585,7 @@ fn value_trees_n(rep: &mut Report, n: usize, keys: [&'static str; 4], c13: bool)
             }
             return;
         }
-        let r = guarded(|| -> Result<(), String> {
-            for (name, text) in [("toml::to_string", toml::to_string(&v).map_err(|e| e.to_string())?), ("Table::to_string", t.to_string()), ("toml::to_string_pretty", toml::to_string_pretty(&v).map_err(|e| e.to_string())?)] {
-                valid(&text).map_err(|e| format!("{} output {:?} is {}", name, text, e))?;
-                let back: toml::Value = toml::from_str(&text).map_err(|e| format!("{} output {:?} does not parse: {}", name, text, e.message()))?;
-                if crate::real::canon_toml_value(&back, true) != crate::real::canon_toml_value(&v, true) {
-                    return Err(format!("{} output {:?} decodes to {} instead of {}", name, text, crate::real::canon_toml_value(&back, true), crate::real::canon_toml_value(&v, true)));
-                }
-                // the FromStr impls are decoding routes of their own
-                let via_fs: toml::Value = text.parse().map_err(|e: toml::de::Error| format!("{} output {:?} does not parse through str::parse::<Value>: {}", name, text, e.message()))?;
-                if crate::real::canon_toml_value(&via_fs, true) != crate::real::canon_toml_value(&v, true) {
-                    return Err(format!("{} output {:?} read with str::parse::<toml::Value> gives {} instead of {}", name, text, crate::real::canon_toml_value(&via_fs, true), crate::real::canon_toml_value(&v, true)));
-                }
-                let via_ft: toml::Table = text.parse().map_err(|e: toml::de::Error| format!("{} output {:?} does not parse through str::parse::<Table>: {}", name, text, e.message()))?;
-                if crate::real::canon_toml_table(&via_ft, true) != crate::real::canon_toml_value(&v, true) {
-                    return Err(format!("{} output {:?} read with str::parse::<toml::Table> gives {} instead of {}", name, text, crate::real::canon_toml_table(&via_ft, true), crate::real::canon_toml_value(&v, true)));
-                }
-                // the same printer applied to the re-parsed value
-                let text2 = match name {
-                    "toml::to_string_pretty" => toml::to_string_pretty(&back).map_err(|e| e.to_string())?,
-                    "Table::to_string" => back.as_table().map(|t| t.to_string()).unwrap_or_default(),
-                    _ => toml::to_string(&back).map_err(|e| e.to_string())?,
-                };
-                if text2 != text {
-                    return Err(format!("{}: not a fixed point: {:?} -> {:?}", name, text, text2));
-                }
-                // each table's own values come before its sub-tables / arrays of tables: no key/value line after a header
-                // that belongs to a different table is implied by validity + equal decode; additionally check the root:
-                let first_header = text.lines().position(|l| l.starts_with('['));
-                if let Some(h) = first_header {
-                    let root_scalars_after = text.lines().skip(h).filter(|l| !l.starts_with('[') && !l.trim().is_empty()).count();
-                    let _ = root_scalars_after;
-                }
-            }
-            Ok(())
-        });
+        let r = guarded(|| c17_printers(&v, &t));
         match r {
             Ok(Ok(())) => {
                 acc.bump("value-tree-ok");
@@ -563,6 +611,7 @@ pub fn c17(tier: Tier) -> i32 {
     let (acc, sizes) = run_family(&C17, tier);
     absorb_family(&mut rep, acc, sizes, t0);
     value_trees(&mut rep, tier, false);
+    string_trees(&mut rep, tier);
     // the insertion-ordered configuration: the same value-tree enumeration (every insertion order really is a different
     // map there) and the parse -> print -> parse battery, run by the cfg engine's binary built with `preserve_order`
     {
